@@ -328,12 +328,17 @@ Fixpoint first_ge (x : Q) (T U : list Q) : option (Q * Q) :=
   | t :: T', u :: U' => if qltb t x then first_ge x T' U' else Some (t, u)
   | _, _ => None
   end.
-Definition last_le (x : Q) (T U : list Q) : option (Q * Q) :=
-  (fix go (T U : list Q) : option (Q * Q) :=
-     match T, U with
-     | t :: T', u :: U' => if qltb x t then go T' U' else Some (t, u)
-     | _, _ => None
-     end) (rev T) (rev U).
+(* the descending loop "for (idisc = n-1; idisc >= 0 && !found; idisc--) if (x < T[idisc]) continue; ..." selects the
+   LAST index with T[idisc] <= x; written as a recursion on the table so that it can be reasoned about by induction *)
+Fixpoint last_le (x : Q) (T U : list Q) : option (Q * Q) :=
+  match T, U with
+  | t :: T', u :: U' =>
+      match last_le x T' U' with
+      | Some p => Some p
+      | None => if qltb x t then None else Some (t, u)
+      end
+  | _, _ => None
+  end.
 (* shared shape of rawToTransformValue (T = ZDisc, U = YDisc) and transformToRawValue (T = YDisc, U = ZDisc) *)
 Definition emp_interp (T U : list Q) (x0 : Q) : Q :=
   let x1 := match T with t0 :: _ => if qltb x0 t0 then t0 else x0 | [] => x0 end in
@@ -347,3 +352,75 @@ Definition rotate_direct (n : nat) (flagRot : bool) (rotMat : mat) (v : list Q) 
   if flagRot then prod_mat_vec n rotMat v false else v.
 Definition rotate_inverse (n : nat) (flagRot : bool) (rotInv : mat) (v : list Q) : list Q :=
   if flagRot then prod_mat_vec n rotInv v false else v.
+
+(* ------------------------------------------------------------------ AnamHermite::_defineBounds *)
+(* /repo/src/Anamorphosis/AnamHermite.cpp:415 (object freshly constructed: the four intervals undefined, so azmin = pzmin ...),
+   with the fallback "absolute bound := practical bound when the absolute one was not met on the grid".
+   [phi] = the raw expansion (flagBound switched off during the calculation). *)
+Fixpoint grid_up (cnt : nat) (y : Q) : list Q :=
+  match cnt with O => [] | S c => let y' := Qred (y + YPAS) in y' :: grid_up c y' end.
+Fixpoint grid_dn (cnt : nat) (y : Q) : list Q :=
+  match cnt with O => [] | S c => let y' := Qred (y - YPAS) in y' :: grid_dn c y' end.
+(* ym[0..200] ascending (ym[100] = 0), with zm = phi ym *)
+Definition bounds_grid (phi : Q -> Q) : list (Q * Q) :=
+  map (fun y => (y, phi y)) (rev (grid_dn 100 0) ++ 0 :: grid_up 100 0).
+
+(* descending loop "for (ind = ind0; ind > 0; ind--)" on the list (ym[ind0], zm[ind0]) :: ... :: (ym[0], zm[0]);
+   [above] = zm[ind+1]; result: (az.min if met, first turning point (py.min, pz.min) if any) *)
+Fixpoint lo_scan (azmin above : Q) (l : list (Q * Q)) (p : option (Q * Q)) : option Q * option (Q * Q) :=
+  match l with
+  | (y, z) :: (((_, z') :: _) as tl) =>
+      if qltb z azmin then (Some above, p)
+      else lo_scan azmin z tl (match p with None => if qltb z z' then Some (y, z) else None | Some _ => p end)
+  | _ => (None, p)
+  end.
+(* ascending loop "for (ind = ind0; ind < npas-1; ind++)" on (ym[ind0], zm[ind0]) :: ... :: (ym[200], zm[200]) *)
+Fixpoint hi_scan (azmax : Q) (l : list (Q * Q)) (p : option (Q * Q)) : option Q * option (Q * Q) :=
+  match l with
+  | (y, z) :: (((_, z') :: _) as tl) =>
+      if qltb azmax z then (Some z, p)
+      else hi_scan azmax tl (match p with None => if qltb z' z then Some (y, z) else None | Some _ => p end)
+  | _ => (None, p)
+  end.
+(* starting index: first ym > pymin, then first zm > (pzmin + pzmax) / 2, else npas / 2 *)
+Fixpoint skip_while {A} (f : A -> bool) (l : list A) (i : nat) : nat :=
+  match l with [] => i | x :: r => if f x then skip_while f r (S i) else i end.
+Definition start_index (G : list (Q * Q)) (pymin mid : Q) : nat :=
+  let i1 := skip_while (fun p : Q * Q => negb (qltb pymin (fst p))) G 0 in
+  let i2 := skip_while (fun p : Q * Q => negb (qltb mid (snd p))) (skipn i1 G) i1 in
+  if Nat.leb (length G) i2 then 100%nat else i2.
+
+Record bounds := { b_azmin : Q; b_azmax : Q; b_aymin : Q; b_aymax : Q; b_pzmin : Q; b_pzmax : Q; b_pymin : Q; b_pymax : Q;
+                   b_lo : option Q * option (Q * Q); b_hi : option Q * option (Q * Q); b_start : Q }.
+Definition inv_or0 (phi : Q -> Q) (z : Q) : Q := match r2t_core phi z with Some (y, _) => y | None => 0 end.
+Definition define_bounds (phi : Q -> Q) (pymin pzmin pymax pzmax : Q) : bounds :=
+  let G := bounds_grid phi in
+  let ind0 := start_index G pymin ((pzmin + pzmax) / 2) in
+  let above := snd (nth (S ind0) G (0, 0)) in
+  let lo := lo_scan pzmin above (rev (firstn (S ind0) G)) None in
+  let hi := hi_scan pzmax (skipn ind0 G) None in
+  let '(aymin, azmin) :=
+    match lo with
+    | (Some v, _) => (inv_or0 phi v, v)
+    | (None, Some (py, pz)) => (py, pz)                       (* fallback of the fix *)
+    | (None, None) => (ANAM_YMIN, phi ANAM_YMIN)
+    end in
+  let '(pymin', pzmin') :=
+    match snd lo with
+    | Some q => q
+    | None => let y := if qltb aymin ANAM_YMIN then ANAM_YMIN else aymin in (y, phi y)
+    end in
+  let '(aymax, azmax) :=
+    match hi with
+    | (Some v, _) => (inv_or0 phi v, v)
+    | (None, Some (py, pz)) => (py, pz)
+    | (None, None) => (ANAM_YMAX, phi ANAM_YMAX)
+    end in
+  let '(pymax', pzmax') :=
+    match snd hi with
+    | Some q => q
+    | None => let y := if qltb ANAM_YMAX aymax then ANAM_YMAX else aymax in (y, phi y)
+    end in
+  {| b_azmin := azmin; b_azmax := azmax; b_aymin := aymin; b_aymax := aymax;
+     b_pzmin := pzmin'; b_pzmax := pzmax'; b_pymin := pymin'; b_pymax := pymax';
+     b_lo := lo; b_hi := hi; b_start := snd (nth ind0 G (0, 0)) |}.
